@@ -4,3 +4,4 @@ pub mod seqfam;
 pub mod orderfam;
 pub mod dupfam;
 pub mod nonacqfam;
+pub mod keyfam;
